@@ -63,3 +63,7 @@ Fixpoint list_upd (l : list Z) (i : nat) (v : Z) : option (list Z) :=
   end.
 Definition go_upd (l : list Z) (i v : Z) : res (list Z) :=
   if i <? 0 then Panic else match list_upd l (Z.to_nat i) v with Some l' => Ok l' | None => Panic end.
+
+(* copy(dst, src): the first min(len dst, len src) bytes of dst are replaced, its length is unchanged *)
+Definition go_copy (dst src : list Z) : list Z :=
+  firstn (length dst) src ++ skipn (length src) dst.
